@@ -160,6 +160,10 @@ class Module:
         self.src = src
         self._raw_tree = None
         self.tree = _StripDebug().visit(ast.parse(src, filename=path))
+        # alpha-renaming invariance: locals renamed relative to the reviewed reference get their reference names back
+        from . import alpha
+        self.restored_locals = []
+        alpha.restore_local_names(self.tree, name, self.restored_locals)
         set_parents(self.tree)
         self.classes = {}
         self.functions = {}
